@@ -1,5 +1,6 @@
 import NeumannModel.Common.Proto
 import NeumannModel.KV.Model
+import NeumannModel.KV.Bloom
 /-
   Line-protocol driver for the concurrent-store model (C11).
 
@@ -13,7 +14,12 @@ import NeumannModel.KV.Model
     answer: trace <t>:<site>:<key>,…  | hist <t>.<i>:<inv>-<ret>:<res>,… | image <key>=<get>/<exists>/<inscan>,…
             | wal <records> | rimage <image of the store recovered from the log>   (last two only with wal=1)
             | q=<1 when every thread finished>
-    witness emb_mixture | witness durable_order | witness delete_skip_if_absent
+    runb <wal:0|1> <programs> <schedule>
+      the same on a store built WITH a Bloom filter (`Bloom.runSchedB`, no hash collisions); the
+      answer has one more field: covers=<1 when every visible key of the programs is in the filter>
+    runbl <wal:0|1> <programs> <schedule>
+      NOT the code: `filter.add` after the router call (`Bloom.runSchedBLate`)
+    witness emb_mixture | witness durable_order | witness delete_skip_if_absent | witness bloom_late_add
                     →  `<wal> <programs> <schedule>` of the Lean witness theorems
     lin <hist>  — not implemented (answers bad-op); the harness has its own Wing–Gong checker.
 -/
@@ -182,6 +188,20 @@ def showOp : Op → String
 def showProgs (ps : List (List Op)) : String :=
   "|".intercalate (ps.map fun p => if p.isEmpty then "-" else ";".intercalate (p.map showOp))
 
+def showView (k : Key) (v : Res × Bool × Bool) : String :=
+  s!"{showKey k}={showRes v.1}/{if v.2.1 then "T" else "F"}/{if v.2.2 then "T" else "F"}"
+
+def showRun (w : String) (progs : List (List Op)) (sys : Sys) (image : Option String := none) : String :=
+  let ks := keyUniverse progs
+  let tr := joinOr (sys.trace.map fun (t, op, pc) => s!"{t}:{siteOf op pc}:{opKeyStr op}")
+  let hi := joinOr (sys.hist.map fun r => s!"{r.t}.{r.i}:{r.inv}-{r.ret}:{showRes r.res}")
+  let base := s!"trace {tr} | hist {hi} | image {image.getD (showImage sys.store ks)}"
+  let walPart :=
+    if w = "1" then
+      s!" | wal {joinOr (sys.store.wal.map showEntry)} | rimage {showImage (recover sys.store.wal) ks}"
+    else ""
+  base ++ walPart ++ s!" | q={if quiescent sys then 1 else 0}"
+
 def kvStep (_ : Unit) (line : String) : Unit × String :=
   let bad := ((), "bad-op")
   match words line with
@@ -189,20 +209,22 @@ def kvStep (_ : Unit) (line : String) : Unit × String :=
       match parseProgs ps, parseNats sc with
       | some progs, some sched =>
           if w ≠ "0" ∧ w ≠ "1" then bad else
-          let sys := runSched (w = "1") progs sched
-          let ks := keyUniverse progs
-          let tr := joinOr (sys.trace.map fun (t, op, pc) => s!"{t}:{siteOf op pc}:{opKeyStr op}")
-          let hi := joinOr (sys.hist.map fun r => s!"{r.t}.{r.i}:{r.inv}-{r.ret}:{showRes r.res}")
-          let base := s!"trace {tr} | hist {hi} | image {showImage sys.store ks}"
-          let walPart :=
-            if w = "1" then
-              s!" | wal {joinOr (sys.store.wal.map showEntry)} | rimage {showImage (recover sys.store.wal) ks}"
-            else ""
-          ((), base ++ walPart ++ s!" | q={if quiescent sys then 1 else 0}")
+          ((), showRun w progs (runSched (w = "1") progs sched))
+      | _, _ => bad
+  | [cmd, w, ps, sc] =>
+      if cmd ≠ "runb" ∧ cmd ≠ "runbl" then bad else
+      match parseProgs ps, parseNats sc with
+      | some progs, some sched =>
+          if w ≠ "0" ∧ w ≠ "1" then bad else
+          let b := if cmd = "runb" then runSchedB (fun _ => false) (w = "1") progs sched
+                   else runSchedBLate (fun _ => false) (w = "1") progs sched
+          let img := joinOr ((keyUniverse progs).map fun k => showView k (viewB (fun _ => false) b k))
+          ((), showRun w progs b.sys (some img) ++ s!" | covers={if coversOn b (keyUniverse progs) then 1 else 0}")
       | _, _ => bad
   | ["witness", "emb_mixture"] => ((), s!"0 {showProgs embMixtureProgs} {showNats embMixtureSched}")
   | ["witness", "durable_order"] => ((), s!"1 {showProgs durableOrderProgs} {showNats durableOrderSched}")
   | ["witness", "delete_skip_if_absent"] => ((), s!"1 {showProgs putDeleteAbsentProgs} {showNats putDeleteAbsentSched}")
+  | ["witness", "bloom_late_add"] => ((), s!"0 {showProgs lateAddProgs} {showNats lateAddSched}")
   | _ => bad
 
 def main : IO Unit := run kvStep ()
